@@ -10,7 +10,6 @@ import (
 	"github.com/launchdarkly/go-sdk-common/v3/ldattr"
 	"github.com/launchdarkly/go-sdk-common/v3/ldcontext"
 	"github.com/launchdarkly/go-sdk-common/v3/ldvalue"
-	evaluation "github.com/launchdarkly/go-server-sdk-evaluation/v3"
 )
 
 func simpleFlag(key string, on bool, serve int, nVars int) WFlag {
@@ -355,7 +354,7 @@ func (g *gen) refMal() WRef {
 // split points, never as an expected value.
 func bucketOf(sec bool, ctx ldcontext.Context, isExp bool, seed *int, ck, key string, by ldattr.Ref, salt string) float64 {
 	defer func() { recover() }()
-	v, _, err := evaluation.VerifComputeBucketValue(sec, ctx, isExp, func() ldvalue.OptionalInt { return optInt(seed) }(), ldcontext.Kind(ck), key, by, salt)
+	v, _, err := hookComputeBucketValue(sec, ctx, isExp, func() ldvalue.OptionalInt { return optInt(seed) }(), ldcontext.Kind(ck), key, by, salt)
 	if err != nil {
 		return 0
 	}
